@@ -157,6 +157,15 @@ def search(ctx):
                     n0, r0 = float(rng.uniform(1.45, 1.65)), float(rng.uniform(0.3, 0.7))
                     members = [Sphere(n=n0, r=r0, center=(float(rng.uniform(0, 3)), float(rng.uniform(0, 3)), float(rng.uniform(3, 12)))) for _ in range(m)]
                     layered = False
+                if i % 6 == 0 and m >= 2:
+                    # members whose index EQUALS the medium's somewhere: an index-matched shell or core in a layered member, a
+                    # fully matched (invisible) member -- each still contributes exactly its own field
+                    nmed_ = OPT["medium_index"]
+                    cpos = lambda: (float(rng.uniform(0, 3)), float(rng.uniform(0, 3)), float(rng.uniform(4, 10)))
+                    special = [Sphere(n=[1.59, nmed_], r=[0.3, 0.5], center=cpos()), Sphere(n=[nmed_, 1.55], r=[0.25, 0.45], center=cpos()), Sphere(n=nmed_, r=0.4, center=cpos())]
+                    members = [Sphere(n=1.5, r=0.4, center=cpos())] + special[(i // 6) % 3:(i // 6) % 3 + 2]
+                    m = len(members)
+                    layered = True
                 coll = Spheres(members, warn=False)
                 name, mk = ("Mie", lambda: Mie()) if (rng.random() < 0.7 and i % 6 != 3) or layered else ("MieLens", lambda: MieLens(lens_angle=0.8))
                 det = T.rand_grid(rng, 5) if (name == "MieLens" or rng.random() < 0.5) else T.rand_points(rng)
